@@ -494,8 +494,11 @@ func (d *dealer) syncRegister(callee *wamp.Session, msg *wamp.Register, match, i
 		// invocation policy allows another.
 
 		// Found an existing registration that has an invocation strategy that
-		// only allows a single callee on the given registration.
-		if reg.policy == "" || reg.policy == wamp.InvokeSingle {
+		// only allows a single callee on the given registration. Any policy
+		// that is not a known shared policy is handled like "single".
+		switch reg.policy {
+		case wamp.InvokeRoundRobin, wamp.InvokeRandom, wamp.InvokeFirst, wamp.InvokeLast:
+		default:
 			d.log.Println("REGISTER for already registered procedure",
 				msg.Procedure, "from callee", callee)
 			d.trySend(callee, &wamp.Error{
